@@ -47,6 +47,12 @@ enum Knob {
     Phantom(usize),
 }
 
+/// Knobs added after the third round (see DESIGN.md §0.5): in the thorough tier they take part in
+/// all pairs with the older knobs, but not in pairs among themselves or in the structured triples.
+fn is_late(k: &Knob) -> bool {
+    matches!(k, Knob::MissingForeign(_) | Knob::SerdeRename(_) | Knob::Phantom(_) | Knob::ValidateSame | Knob::Deny(Deny::CustomForeign))
+}
+
 fn knobs(nfields: usize) -> Vec<Knob> {
     let mut k = vec![
         Knob::RenameAll(RenameAll::Camel),
@@ -200,6 +206,10 @@ fn group_a(cat: &mut Catalogue, tier: Tier) {
         cat.root(p(Ty::Item(i)), "A", format!("{k:?}"));
         if tier == Tier::Thorough {
             for &k2 in &ks[n + 1..] {
+                // the knobs added in rounds 4–6 are paired with every older knob, not with each other
+                if is_late(&k) && is_late(&k2) {
+                    continue;
+                }
                 let Some(mut s2) = apply(s1.clone(), k2) else { continue };
                 s2.style = ((n + 3 * cat.roots.len()) % 4) as u8;
                 let i = cat.add(Item::Struct(s2));
@@ -227,6 +237,9 @@ fn group_a(cat: &mut Catalogue, tier: Tier) {
                     continue;
                 }
                 for &k3 in &container {
+                    if is_late(&k1) || is_late(&k2) || is_late(&k3) {
+                        continue;
+                    }
                     let Some(s3) = apply(base.clone(), k1).and_then(|s| apply(s, k2)).and_then(|s| apply(s, k3)) else { continue };
                     let mut s3 = s3;
                     n += 1;
@@ -239,7 +252,7 @@ fn group_a(cat: &mut Catalogue, tier: Tier) {
         for (a, &c1) in container.iter().enumerate() {
             for &c2 in &container[a + 1..] {
                 for &k in &ks {
-                    if field_of(&k).is_none() {
+                    if field_of(&k).is_none() || is_late(&k) || is_late(&c1) || is_late(&c2) {
                         continue;
                     }
                     let Some(s3) = apply(base.clone(), c1).and_then(|s| apply(s, c2)).and_then(|s| apply(s, k)) else { continue };
@@ -288,6 +301,10 @@ fn group_a(cat: &mut Catalogue, tier: Tier) {
             (Knob::MissingForeign(0), Knob::MissingFn(1)),
             (Knob::Deny(Deny::CustomForeign), Knob::RenameAll(RenameAll::Camel)),
             (Knob::Deny(Deny::CustomForeign), Knob::Validate),
+            // a default next to a custom missing-field function: the default wins, the function is never called
+            (Knob::DefaultExpr(1), Knob::MissingFn(1)),
+            (Knob::DefaultTrait(0), Knob::MissingFn(0)),
+            (Knob::DefaultTrait(2), Knob::MissingForeign(1)),
             // conversions whose intermediate type is an Option
             (Knob::Optional(1), Knob::Conv(1, Conv::From { by_ref: false })),
             (Knob::Optional(0), Knob::Conv(0, Conv::TryFrom { by_ref: true })),
@@ -1085,6 +1102,21 @@ fn group_h(cat: &mut Catalogue, tier: Tier) {
         s.deny = deny;
         let i = cat.add(Item::Struct(s));
         cat.root(p(Ty::Item(i)), "H", format!("keys differing only by Unicode normalisation, {deny:?}"));
+    }
+    // two fields with the same effective key (rustc only warns): the first declared one is fed, the
+    // other is never present; the accepted list names the key once per field
+    for deny in [Deny::No, Deny::Default, Deny::Custom] {
+        for adjacent in [true, false] {
+            let mut s = base3();
+            let dup = if adjacent { 1 } else { 2 };
+            s.fields[dup].rename = Some("fa_x".into());
+            s.fields[dup].default = DefaultSpec::Trait;
+            s.deny = deny;
+            let i = cat.add(Item::Struct(s));
+            cat.root(p(Ty::Item(i)), "H", format!("two fields sharing a key (adjacent={adjacent}), the later one defaulted, {deny:?}"));
+            // (two *required* fields sharing a key are not a meaningful program: one of them can never
+            // be fed, so no behaviour satisfies the statements — C04 rightly objects to any)
+        }
     }
     // variants that share their field names but not their attributes
     for deny in [Deny::No, Deny::Default] {
